@@ -1,5 +1,5 @@
 #!/usr/bin/env python3
 import json,glob
-for f in sorted(glob.glob('/tmp/mut/*/MUTANT/*/eval.json')):
+for f in sorted(glob.glob('/tmp/mut/*C??/MUTANT/[0-9]/eval.json')):
     j=json.load(open(f))
     print(f.split('/')[3], j['mutant'], 'confirmed' if j['confirmed'] else 'NOT-CONFIRMED(demo0=%s demo1=%s suite=%s %s)'%(j.get('demo_without_patch_rc'),j.get('demo_with_patch_rc'),j.get('suite_passes_with_patch'),j.get('suite_failed')), 'detected_by', j['detected_by'], {c:r['rc'] for c,r in j.get('checks',{}).items()})
